@@ -500,6 +500,37 @@ class H:
         return e.get('ev') in ('deliver', 'merge') or (e.get('ev') == 'ptrans' and e.get('kind') == 'sync-receive')
 
     @staticmethod
+    def conflict_patch_loses_increment(c):
+        """a remote batch adds a conflicting value to a register and increments the register's winning counter: only the
+        Conflict patch is logged, the increment is lost"""
+        sc, idx, e = c.get('scenario') or [], c.get('index', -1), c.get('event') or {}
+        before = None
+        if 'v1' in e:
+            before = {'v2': e['v1']}
+        else:
+            for p in reversed(sc[:idx]):
+                if p.get('r') == e.get('r') and 'view' in (p.get('obs') or {}):
+                    before = p
+                    break
+        if before is None:
+            return False
+        ps = e.get('patches') or []
+        for p in ps:
+            if p.get('act') != 'Conflict':
+                continue
+            ra, rb = H._reg_after(e, p), H._reg_after(before, p)
+            if not ra or not rb:
+                continue
+            same_slot = lambda q: q.get('obj') == p.get('obj') and q.get('iskey') == p.get('iskey') and q.get('key') == p.get('key') and q.get('index') == p.get('index')
+            if any(q.get('act') == 'Increment' and same_slot(q) for q in ps):
+                continue
+            wb = [v for v in rb['vals'] if v['id'] == rb['win']]
+            wa = [v for v in ra['vals'] if v['id'] == rb['win']]
+            if wb and wa and wb[0]['v'].get('k') == 'counter' and wa[0]['v'].get('k') == 'counter' and wb[0]['v'].get('n') != wa[0]['v'].get('n'):
+                return True
+        return False
+
+    @staticmethod
     def put_patch_counter_stale(e):
         """a Put patch of a remote batch carries a counter value other than the value that counter has afterwards
         (increments of the same batch are missing from it)"""
